@@ -67,7 +67,7 @@ def analyse_unit(path):
         except frame.Unmodelled as u:
             out['broken'].append('unmodelled construct: %s in %s' % (u, fn['disp'][:160]))
     pe, found = exc.check_parse_error_base(db)
-    out['pe'] = (pe, found)
+    out['pe'] = (pe, found, sorted(exc.check_parse_error_base.accessors))
     return out
 
 
@@ -152,11 +152,11 @@ def run(tier):
     paths = core.extract(list(units.RULES) + list(units.DISPATCH))
     if tier == 'thorough': paths += repo_units.extract_all(R)
     results = repo_units.map_units('sa.checks.c05', 'analyse_unit', paths)
-    kinds = collections.Counter(); seen = set(); pe_found = 0; pe_probs = set()
+    kinds = collections.Counter(); seen = set(); pe_found = 0; pe_probs = set(); pe_acc = set()
     for p in paths:
         res = results[p]
         for b in res['broken']: R.broke_at(p, b)
-        pe_found += res['pe'][1]; pe_probs |= set(res['pe'][0])
+        pe_found += res['pe'][1]; pe_probs |= set(res['pe'][0]); pe_acc |= set(res['pe'][2])
         for kind, disp, site, probs in res['items']:
             if (kind, disp) in seen: continue
             seen.add((kind, disp)); kinds[kind] += 1
@@ -166,6 +166,7 @@ def run(tier):
     R.ob(ok=not pe_probs, key='parse_error_base')
     for pr in sorted(pe_probs): R.violation('X-what', 'parse_error_base.hpp / position.hpp', pr)
     if pe_found < 2: R.broke('parse_error_base constructor / operator<<( position ) not found (anchor vanished)')
+    if pe_acc != {'message', 'position_string'}: R.broke('parse_error_base::message / position_string not found among the analysed functions (seen: %s)' % sorted(pe_acc))
     # (a) raised rule identity through the must family (EQUIV)
     ep = core.extract(list(units.EQUIV))
     er = repo_units.map_units('sa.checks.c09', 'analyse_unit', ep, extra=(8, ['must', 'if_must', 'if_must_else', 'opt_must', 'star_must', 'list_must']))
